@@ -351,3 +351,76 @@ Proof.
 Qed.
 Theorem visit_kod_ok : forall k, kod_ok k.
 Proof. destruct k; [apply kod_kept_ok|apply kod_to_ok, visit_dest_ok]. Qed.
+
+(* ---- destinations keep the "tracked" invariant (so the final REPAY of a send is a [do_repay]) ---------------------- *)
+Definition dest_tr (ve : venv) (d : dest) : Prop :=
+  forall f st lo st1, sem_dest ve d f st = SOk (lo, st1) -> tracked (s_bals st) f -> sext st st1 /\ tracked (s_bals st1) lo.
+Definition kod_tr (ve : venv) (k : kod) : Prop :=
+  forall f st lo st1, sem_kod ve k f st = SOk (lo, st1) -> tracked (s_bals st) f -> sext st st1 /\ tracked (s_bals st1) lo.
+
+Lemma freverse_accts : forall f, incl (accts (freverse f)) (accts f).
+Proof. intros f a Ha. unfold accts, freverse in *. cbn [f_parts] in Ha. rewrite map_rev in Ha. apply in_rev in Ha. exact Ha. Qed.
+
+Lemma assemble2_tracked : forall b x r f', assemble [x; r] = SOk f' -> tracked b x -> tracked b r -> tracked b f'.
+Proof. intros b x r f' A Tx Tr. eapply assemble_tracked; [exact A|]. repeat constructor; assumption. Qed.
+
+Lemma inorder_entries_tr : forall ve l, Forall (fun x => kod_tr ve (snd x)) l ->
+  forall f acc st f1 kt st1, sem_inorder_entries ve l f acc st = SOk (f1, kt, st1) -> tracked (s_bals st) f ->
+  sext st st1 /\ tracked (s_bals st1) f1.
+Proof.
+  intros ve l F. induction F as [|[amt_e k] rest Pk _ IH]; intros f acc st f1 kt st1 H T.
+  - rewrite sem_inorder_nil in H. injection H as <- _ <-. split; [apply sext_refl|assumption].
+  - rewrite sem_inorder_cons in H. destruct (eval_monetary ve amt_e) as [[sm mamt]|]; [|discriminate]. cbn [sbind] in H.
+    destruct (mamt <? 0); [discriminate|]. destruct (negb (N.eqb (f_asset f) sm)); [discriminate|].
+    destruct (take_max f mamt) as [res rem] eqn:TM. destruct (take_max_accts _ _ _ _ TM) as (I1 & I2 & _).
+    destruct (sem_kod ve k res st) as [[x st0]|] eqn:Ek; [|discriminate]. cbn [sbind] in H.
+    destruct (Pk _ _ _ _ Ek (tracked_incl _ _ _ I1 T)) as [M0 Tx].
+    destruct (assemble [x; rem]) as [f'|] eqn:A; [|discriminate]. cbn [sbind] in H.
+    assert (Tf' : tracked (s_bals st0) f').
+    { eapply assemble2_tracked; [exact A|exact Tx|]. eapply tracked_mono; [apply sext_bmono; exact M0|].
+      eapply tracked_incl; eassumption. }
+    destruct (IH _ _ _ _ _ _ H Tf') as [M1 T1]. split; [eapply sext_trans; eassumption|assumption].
+Qed.
+
+Lemma allot_entries_tr : forall ve l, Forall (fun x => kod_tr ve (snd x)) l ->
+  forall parts f st f1 st1, sem_allot_entries ve l parts f st = SOk (f1, st1) -> tracked (s_bals st) f ->
+  sext st st1 /\ tracked (s_bals st1) f1.
+Proof.
+  intros ve l F. induction F as [|[ap k] rest Pk _ IH]; intros parts f st f1 st1 H T.
+  - rewrite sem_allot_nil in H. injection H as <- <-. split; [apply sext_refl|assumption].
+  - destruct parts as [|p ps]; [discriminate|]. rewrite sem_allot_cons in H.
+    destruct (take f p) as [[res rem]|] eqn:TK; [|discriminate]. destruct (take_accts _ _ _ _ TK) as (I1 & I2 & _).
+    destruct (sem_kod ve k res st) as [[x st0]|] eqn:Ek; [|discriminate]. cbn [sbind] in H.
+    destruct (Pk _ _ _ _ Ek (tracked_incl _ _ _ I1 T)) as [M0 Tx].
+    destruct (assemble [x; rem]) as [f'|] eqn:A; [|discriminate]. cbn [sbind] in H.
+    assert (Tf' : tracked (s_bals st0) f').
+    { eapply assemble2_tracked; [exact A|exact Tx|]. eapply tracked_mono; [apply sext_bmono; exact M0|].
+      eapply tracked_incl; eassumption. }
+    destruct (IH _ _ _ _ _ H Tf') as [M1 T1]. split; [eapply sext_trans; eassumption|assumption].
+Qed.
+
+Theorem sem_dest_tracked : forall ve d, dest_tr ve d.
+Proof.
+  intros ve. apply (dest_ind2 (dest_tr ve) (kod_tr ve)).
+  - intros e f st lo st1 H T. cbn [sem_dest] in H.
+    destruct (take f (total f)) as [[res rem]|] eqn:TK; [|discriminate]. destruct (take_accts _ _ _ _ TK) as (I1 & I2 & _).
+    destruct (eval_account ve e) as [a|]; [|discriminate]. cbn [sbind] in H. injection H as <- <-.
+    split; [split; [apply credit_mono|repeat split]|]. cbn [do_send s_bals].
+    eapply tracked_mono; [apply credit_mono|]. eapply tracked_incl; eassumption.
+  - intros l rem F Prem f st lo st1 H T. rewrite sem_dest_inorder in H.
+    destruct (sem_inorder_entries ve l f 0 st) as [[[f1 kt] st0]|] eqn:E; [|discriminate]. cbn [sbind] in H.
+    destruct (inorder_entries_tr ve l F _ _ _ _ _ _ E T) as [M0 T0].
+    destruct (take (freverse f1) kt) as [[res rem0]|] eqn:TK; [|discriminate]. destruct (take_accts _ _ _ _ TK) as (I1 & I2 & _).
+    assert (Tr : tracked (s_bals st0) (freverse f1)) by (apply freverse_tracked; exact T0).
+    destruct (sem_kod ve rem (freverse rem0) st0) as [[x st2]|] eqn:Ek; [|discriminate]. cbn [sbind] in H.
+    destruct (Prem _ _ _ _ Ek) as [M2 Tx].
+    { apply freverse_tracked. eapply tracked_incl; eassumption. }
+    destruct (assemble [x; freverse res]) as [r|] eqn:A; [|discriminate]. cbn [sbind] in H. injection H as <- <-.
+    split; [eapply sext_trans; eassumption|]. eapply assemble2_tracked; [exact A|exact Tx|].
+    eapply tracked_mono; [apply sext_bmono; exact M2|]. apply freverse_tracked. eapply tracked_incl; eassumption.
+  - intros l F f st lo st1 H T. rewrite sem_dest_allot in H.
+    destruct (make_allotment ve (map fst l)) as [al|]; [|discriminate]. cbn [sbind] in H.
+    eapply allot_entries_tr; eassumption.
+  - intros f st lo st1 H T. cbn [sem_kod] in H. injection H as <- <-. split; [apply sext_refl|assumption].
+  - intros d IH f st lo st1 H T. exact (IH _ _ _ _ H T).
+Qed.
